@@ -309,7 +309,7 @@ class FnText:
         pos = self.stok(k).start
         self.edits.append((pos, pos, '\n' + text.rstrip() + '\n', origin))
 
-    def nocontinue(self, n):
+    def nocontinue(self, n, else_proofs=None):
         """T11: Verus rejects `continue` inside `for`.  In the body of the n-th loop, at the top level of
         the body:  `let PAT = E else { continue; }; REST`  ->  `if let PAT = E { REST }`   and
         `if C { continue; } REST`  ->  `if !(C) { REST }`.  Same evaluation order, same scopes."""
@@ -376,7 +376,16 @@ class FnText:
         if closes == 0:
             raise Unsupported(f'{self.name}: @nocontinue {n}: no top-level continue pattern found')
         pos = self.stok(c).start
-        self.edits.append((pos, pos, '}' * closes + '\n', ('T11', 'close')))
+        # closing braces, innermost first; the K-th converted `continue` may carry ghost text that is placed
+        # in the else-branch (where the original code executed `continue`)
+        tail = ''
+        for kk in range(closes, 0, -1):
+            tail += '}'
+            pr = (else_proofs or {}).get(kk)
+            if pr:
+                tail += ' else { proof {\n' + pr.rstrip() + '\n} }'
+            tail += '\n'
+        self.edits.append((pos, pos, tail, ('T11', 'close')))
 
     def add_loopend(self, n, text, origin):
         ls = self.loops()
@@ -715,15 +724,21 @@ def process_extract(block_text, tmpl_path, tmpl_line, report):
         if d == 'closurelet':
             mm = re.match(r'(\d+)\s+(.*)$', arg, re.S)
             lets[int(mm.group(1))] = mm.group(2)
+    cont_proofs = {}
+    for d, arg, payload, ln in items:
+        if d == 'continueproof':
+            a1, a2 = arg.split()
+            cont_proofs.setdefault(int(a1), {})[int(a2)] = payload
+            info['clauses'] += count_clauses(payload)
     for d, arg, payload, ln in items:
         if d == 'nocontinue':
-            ft.nocontinue(int(arg))
+            ft.nocontinue(int(arg), cont_proofs.get(int(arg)))
     for d, arg, payload, ln in items:
         origin = ('inj', f'{os.path.basename(tmpl_path)}:{ln} @{d} {arg}'.strip())
         info['directives'].append(f'@{d} {arg}'.strip())
         if d == 'tags':
             info['tags'] = arg.split()
-        elif d == 'nocontinue':
+        elif d in ('nocontinue', 'continueproof'):
             pass
         elif d == 'closurelet':
             mm = re.match(r'(\d+)\s+(.*)$', arg, re.S)
